@@ -31,6 +31,7 @@ mod filter;
 mod find;
 mod runner;
 mod summarize;
+mod stream;
 mod retry_options;
 
 fn main() {
@@ -52,6 +53,7 @@ fn main() {
         "runner" => runner::run(lines.clone(), text.clone()),
         "filter" => filter::run(),
         "find" => find::run(),
+        "stream" => stream::run(&lines),
         m => panic!("unknown mode {m}"),
     }
 }
